@@ -86,6 +86,8 @@ pub struct Owed {
 
 /// Script-side state of one connection.
 pub struct ConnS {
+    /// DISCONNECT packets the client wrote on this connection.
+    pub client_disconnects: u32,
     pub inbuf: Vec<u8>,
     pub connack_sent: bool,
     pub connack_ms: u64,
@@ -158,6 +160,7 @@ impl ConnS {
             in_pub2: BTreeSet::new(),
             first_unsol: None,
             unsol: Vec::new(),
+            client_disconnects: 0,
             stray: BTreeSet::new(),
             stray_count: 0,
             maybe_rel: BTreeSet::new(),
@@ -960,6 +963,15 @@ impl<'a> World<'a> {
                     // an answer for this id may already be under way: a stray
                     // ack sent before, or a second ack sent while the publish was parked
                     let mut answered = self.reqs[ri].pre_acks >= 2 && is_new;
+                    if answered {
+                        // the second of those acks is this publish's answer: it
+                        // cannot answer a later publish with this id as well
+                        if let Some(n) = self.conns[idx].stray_final.get_mut(pkid) {
+                            if *n > 0 {
+                                *n -= 1;
+                            }
+                        }
+                    }
                     if !answered {
                         if let Some(n) = self.conns[idx].stray_final.get_mut(pkid) {
                             if *n > 0 {
@@ -1147,6 +1159,7 @@ impl<'a> World<'a> {
             }
             Pk::Disconnect { .. } => {
                 self.rep.probe("client_disconnect_on_wire");
+                self.conns[idx].client_disconnects += 1;
             }
             _ => {}
         }
